@@ -114,6 +114,13 @@ class HeapBuilder:
                     continue            # an attribute the object does not have (yet): a blank object under construction
                 arr = self.fields.get(f, z3.K(z3.IntSort(), Z.NONE))
                 self.fields[f] = z3.Store(arr, z3.IntVal(i), self.encode(v, fty))
+            for f, fty in (getattr(ty, "optional", {}) if isinstance(ty, TAbs) else {}).items():
+                present = f in getattr(obj, "__dict__", {}) or hasattr(obj, f)
+                arr = self.fields.get("has:" + f, z3.K(z3.IntSort(), Z.mk_bool(False)))
+                self.fields["has:" + f] = z3.Store(arr, z3.IntVal(i), Z.mk_bool(bool(present)))
+                if present:
+                    arr = self.fields.get(f, z3.K(z3.IntSort(), Z.NONE))
+                    self.fields[f] = z3.Store(arr, z3.IntVal(i), self.encode(getattr(obj, f), fty))
             return Z.mk_ref(i)
         from .types import TMap
 
